@@ -538,6 +538,17 @@ fn run_cli(sub: &str, input: &[u8]) -> Result<Vec<u8>, String> {
     }
 }
 
+/// do two values differ only in float leaves (same shape, keys, strings, integer numbers)?
+fn differs_only_in_floats(a: &serde_json::Value, b: &serde_json::Value) -> bool {
+    use serde_json::Value as J;
+    match (a, b) {
+        (J::Number(x), J::Number(y)) => (x.is_f64() && y.is_f64()) || x == y,
+        (J::Array(x), J::Array(y)) => x.len() == y.len() && x.iter().zip(y).all(|(p, q)| differs_only_in_floats(p, q)),
+        (J::Object(x), J::Object(y)) => x.len() == y.len() && x.iter().zip(y).all(|((k, p), (l, q))| k == l && differs_only_in_floats(p, q)),
+        _ => a == b,
+    }
+}
+
 fn has_empty_key(v: &serde_json::Value) -> bool {
     match v {
         serde_json::Value::Array(xs) => xs.iter().any(has_empty_key),
@@ -615,7 +626,10 @@ pub fn exec(toks: &[&str]) -> Vec<String> {
             };
             let mut res = vec![format!("ok {}", canon_s(&out))];
             if canon_s(&out) != canon_s(&input) {
-                res.push(format!("! C33 round trip changed the value: in {} out {}", canon_s(&input), canon_s(&out)));
+                // [float-text-parse]: only float leaves moved (the CLI's serde_json is built without
+                // `float_roundtrip`, so its decimal → f64 conversion is not correctly rounded)
+                let class = if differs_only_in_floats(&input, &out) { "[float-text-parse] " } else { "" };
+                res.push(format!("! C33 {}round trip changed the value: in {} out {}", class, canon_s(&input), canon_s(&out)));
             }
             res
         }
